@@ -440,15 +440,23 @@ def wt (env : Env) : Desc → Val → Bool
   | .custom k, v => (env k).wt v
   | _, _ => false
 
-/-- the partial values `decS` produces (only customs restrict them further than their shape) -/
+/-- the partial values `decS` produces: integers and byte arrays already read, vectors as a capacity
+within the limit, skipped / `Empty` fields defaulted -/
 def pwt (env : Env) : Desc → Val → Bool
+  | .uint n, .int x => x < 256 ^ n
+  | .bytesN n, .bytes bs => bs.length = n
+  | .vecBytes, .cap n => n ≤ VEC_DECODE_LIMIT
+  | .vec _, .cap n => n ≤ VEC_DECODE_LIMIT
+  | .unit, .unit => true
   | .pair a b, .pair va vb => pwt env a va && pwt env b vb
   | .pre _ d, v => pwt env d v
   | .enum a, v => pwt env a v
   | .alt _ d _, .inl v => pwt env d v
   | .alt _ _ rest, .inr v => pwt env rest v
+  | .skipped, .unit => true
+  | .empty _, .unit => true
   | .custom k, v => (env k).pwt v
-  | _, _ => true
+  | _, _ => false
 
 /-- what `decode_static` returns on the static part of `v`'s encoding -/
 def partialOf (env : Env) : Desc → Val → Val
@@ -492,9 +500,8 @@ def Desc.simple : Desc → Bool
   | _ => false
 
 mutual
-/-- well-formedness of a descriptor: prefixes and discriminants fit a u64, discriminants of one enum
-are distinct (Rust: the match arms `V0 .. Vn` are distinct constants), variant lists only under `enum`,
-`Empty<T>` only around `simple` types. -/
+/-- well-formedness of a descriptor: prefixes and discriminants fit a u64, variant lists only under
+`enum` (and well-formed: `wfAlts`), `Empty<T>` only around `simple` types. -/
 def Desc.wf : Desc → Bool
   | .vec d => d.wf
   | .pair a b => a.wf && b.wf
@@ -505,9 +512,19 @@ def Desc.wf : Desc → Bool
   | .empty d => d.simple
   | _ => true
 def Desc.wfAlts : Desc → Bool
-  | .alt k d rest => decide (k < 2 ^ 64) && !(rest.discs.contains k) && d.wf && rest.wfAlts
+  | .alt k d rest => decide (k < 2 ^ 64) && d.wf && rest.wfAlts
   | .void => true
   | _ => false
 end
+
+/-- the discriminants of every enum are pairwise distinct (Rust: the match arms `V0 .. Vn` of the derived
+decoder are distinct constants; with a repeated one the first arm would win) -/
+def Desc.nodup : Desc → Bool
+  | .vec d => d.nodup
+  | .pair a b => a.nodup && b.nodup
+  | .pre _ d => d.nodup
+  | .enum a => a.nodup
+  | .alt k d rest => !(rest.discs.contains k) && d.nodup && rest.nodup
+  | _ => true
 
 end FuelVerif.Canonical
